@@ -46,27 +46,30 @@ type batch struct {
 	Quick  int
 	Thor   int
 	Env    []string
+	// Procs: number of worker processes (default: one per core). More, shorter-lived processes
+	// mean more cold starts of process-wide state that the simulator cannot reset.
+	ProcsQuick, ProcsThor int
 }
 
 // plans: which simulated workloads decide which property. A check only
 // reports failures of its own property; failures of other properties seen on
 // the way are counted as "foreign" in the evidence.
 var plans = map[string][]batch{
-	"C03": {{Driver: "C03", Build: "plain", Quick: 6000, Thor: 240000}},
-	"C06": {{Driver: "C06", Build: "plain", Quick: 12000, Thor: 500000}},
+	"C03": {{Driver: "C03", Build: "plain", Quick: 8000, Thor: 240000}},
+	"C06": {{Driver: "C06", Build: "plain", Quick: 40000, Thor: 1000000}},
 	"C10": {{Driver: "C10", Build: "plain", Quick: 4000, Thor: 160000},
 		{Driver: "C03", Build: "plain", Quick: 1200, Thor: 30000}, {Driver: "C06", Build: "plain", Quick: 2000, Thor: 50000},
 		{Driver: "C14", Build: "plain", Quick: 1200, Thor: 30000}, {Driver: "C15", Build: "plain", Quick: 2000, Thor: 50000},
 		{Driver: "C16", Build: "plain", Quick: 2000, Thor: 50000}, {Driver: "C12", Build: "plain", Quick: 4000, Thor: 100000},
 		{Driver: "C13", Build: "plain", Quick: 1500, Thor: 40000}, {Driver: "C19", Build: "plain", Quick: 2000, Thor: 50000}},
-	"C12": {{Driver: "C12", Build: "plain", Quick: 60000, Thor: 3000000}},
-	"C15": {{Driver: "C15", Build: "plain", Quick: 8000, Thor: 400000}},
-	"C16": {{Driver: "C16", Build: "plain", Quick: 20000, Thor: 1000000},
-		{Driver: "C16", Build: "plain", Quick: 10000, Thor: 500000, Env: []string{"JSONSCHEMAGODEBUG=typeschemasnull=1"}}},
-	"C13": {{Driver: "C13", Build: "plain", Quick: 8000, Thor: 400000}, {Driver: "C13", Build: "race", Quick: 1600, Thor: 60000}},
+	"C12": {{Driver: "C12", Build: "plain", Quick: 300000, Thor: 6000000}},
+	"C15": {{Driver: "C15", Build: "plain", Quick: 30000, Thor: 800000}},
+	"C16": {{Driver: "C16", Build: "plain", Quick: 80000, Thor: 2000000},
+		{Driver: "C16", Build: "plain", Quick: 40000, Thor: 1000000, Env: []string{"JSONSCHEMAGODEBUG=typeschemasnull=1"}}},
+	"C13": {{Driver: "C13", Build: "plain", Quick: 12000, Thor: 400000}, {Driver: "C13", Build: "race", Quick: 2400, Thor: 80000, ProcsQuick: 64, ProcsThor: 512}},
 	"C14": {{Driver: "C14", Build: "plain", Quick: 6000, Thor: 240000}, {Driver: "C19", Build: "plain", Quick: 3000, Thor: 100000},
-		{Driver: "C15", Build: "plain", Quick: 1500, Thor: 50000}},
-	"C19": {{Driver: "C19", Build: "plain", Quick: 8000, Thor: 400000}},
+		{Driver: "C15", Build: "plain", Quick: 1500, Thor: 50000}, {Driver: "C12", Build: "plain", Quick: 40000, Thor: 1000000}},
+	"C19": {{Driver: "C19", Build: "plain", Quick: 30000, Thor: 800000}},
 }
 
 var (
@@ -237,6 +240,13 @@ type batchResult struct {
 func runWorkers(bin string, b batch, tier string, seed uint64, n, workers int, maxwall time.Duration) (*batchResult, error) {
 	t0 := time.Now()
 	res := &batchResult{b: b, n: n, digests: map[int][2]string{}}
+	slots := make(chan struct{}, workers) // at most one process per core at a time
+	if procs := b.ProcsQuick; tier != "thorough" && procs > workers {
+		workers = procs
+	}
+	if procs := b.ProcsThor; tier == "thorough" && procs > workers {
+		workers = procs
+	}
 	if workers > n {
 		workers = n
 	}
@@ -247,6 +257,8 @@ func runWorkers(bin string, b batch, tier string, seed uint64, n, workers int, m
 		wg.Add(1)
 		go func(w int) {
 			defer wg.Done()
+			slots <- struct{}{}
+			defer func() { <-slots }()
 			outFile := filepath.Join(scratch, fmt.Sprintf("out-%s-%s-%d.json", b.Driver, b.Build, w))
 			args := []string{"-driver", b.Driver, "-tier", tier, "-seed", fmt.Sprint(seed), "-from", fmt.Sprint(w), "-to", fmt.Sprint(n),
 				"-stride", fmt.Sprint(workers), "-out", outFile, "-build", b.Build, "-maxwall", maxwall.String()}
@@ -462,6 +474,21 @@ func main() {
 	os.Exit(doCheck(*prop, *tier, seed, bs, *scale))
 }
 
+// maxClasses: how many distinct failure classes are minimised and replayed (the rest are listed).
+func maxClasses() int {
+	if v, err := strconv.Atoi(os.Getenv("VERIF_MAX_CLASSES")); err == nil && v > 0 {
+		return v
+	}
+	return 6
+}
+
+func minimiseBudget() string {
+	if v := os.Getenv("VERIF_MINIMISE_BUDGET"); v != "" {
+		return v
+	}
+	return "60s"
+}
+
 func flagSet(name string) bool {
 	set := false
 	flag.Visit(func(f *flag.Flag) {
@@ -491,6 +518,9 @@ func doReplay(path string) int {
 	_, bins := prepare(map[string]bool{tf.Build: true})
 	defer cleanup()
 	code, out := replayOnce(bins[tf.Build], path, tf.Build, tf.Env, true)
+	for try := 0; try < 6 && code == 0 && tf.Build == "race"; try++ {
+		code, out = replayOnce(bins[tf.Build], path, tf.Build, tf.Env, true)
+	}
 	fmt.Print(out)
 	if code == 1 {
 		fmt.Printf("VIOLATION property=%s replay=%s\n", tf.Property, path)
@@ -693,8 +723,8 @@ func doCheck(prop, tier string, seed uint64, bs []batch, scale float64) int {
 			continue
 		}
 		violations++
-		if ki >= 6 {
-			lines = append(lines, fmt.Sprintf("VIOLATION property=%s replay=(not minimised: more than 6 distinct failure classes) oracle=%s site=%q", prop, f.Oracle, f.Site))
+		if ki >= maxClasses() {
+			lines = append(lines, fmt.Sprintf("VIOLATION property=%s replay=(not minimised: more distinct failure classes than are minimised) oracle=%s site=%q", prop, f.Oracle, f.Site))
 			continue
 		}
 		path := filepath.Join(outDir(), "replays", fmt.Sprintf("%s-%d-%d-%d.json", prop, seed, f.Index, ki))
@@ -702,7 +732,7 @@ func doCheck(prop, tier string, seed uint64, bs []batch, scale float64) int {
 		if len(f.Trace) > 0 {
 			os.WriteFile(path, f.Trace, 0o644)
 			if f.build != "race" {
-				cmd := exec.Command(bins[f.build], "-minimise", path, "-budget", "60s")
+				cmd := exec.Command(bins[f.build], "-minimise", path, "-budget", minimiseBudget())
 				cmd.Env = append(os.Environ(), "GOMAXPROCS=2")
 				if o, err := cmd.CombinedOutput(); err != nil {
 					note = " (minimiser failed: " + tail(string(o), 200) + ")"
@@ -714,6 +744,11 @@ func doCheck(prop, tier string, seed uint64, bs []batch, scale float64) int {
 				// fall back to the unminimised trace
 				os.WriteFile(path, f.Trace, 0o644)
 				code, _ = replayOnce(bins[f.build], path, f.build, nil, false)
+				// whether the race detector still holds the earlier access in its shadow cells is
+				// not something the simulator decides: give a race a few fresh processes
+				for try := 0; try < 6 && code != 1 && f.build == "race"; try++ {
+					code, _ = replayOnce(bins[f.build], path, f.build, nil, false)
+				}
 				if code != 1 {
 					note += " (did not reproduce in a fresh process: reported with the recorded trace)"
 				}
@@ -764,6 +799,7 @@ func doCheck(prop, tier string, seed uint64, bs []batch, scale float64) int {
 			"samples":             samples,
 			"simulated_runs":      agg.evals,
 			"runs_per_hour":       int(float64(agg.evals) / (wall - tBuild + 0.001) * 3600),
+			"seeds_per_hour":      int(float64(agg.evals) / (wall - tBuild + 0.001) * 3600), // every run has its own derived seed
 			"simulated_time_steps": agg.steps,
 			"batches":             agg.perBatch,
 			"fault_kinds_fired":   agg.faults,
